@@ -561,6 +561,20 @@ def _gen_modal(rng, n=None, oracle=False, allow_rf=True, allow_rb=True, allow_cr
             "layout": layout}
 
 
+
+def _gen_ic_vec(rng, n, p_none, scale=1.0):
+    """None, EXACT zeros (an explicit zero start must be honoured, e.g. together with static_ic), partly zero, or random"""
+    u = rng.random()
+    if u < p_none:
+        return None
+    v = rng.standard_normal(n) * scale
+    if u < p_none + 0.12:
+        v[:] = 0.0
+    elif u < p_none + 0.2:
+        v[rng.random(n) < 0.5] = 0.0
+    return [float(x) for x in v]
+
+
 def _gen_sys(ctx, rng, oracle=False, **kw):
     s = _gen_modal(rng, oracle=oracle, **kw)
     n = s["n"]
@@ -569,8 +583,8 @@ def _gen_sys(ctx, rng, oracle=False, **kw):
     s["rb"] = None if rng.random() < 0.5 else [i for i in range(n) if s["kinds"][i] == "rb"]
     s["rf"] = [i for i in range(n) if s["kinds"][i] == "rf"]
     s["static"] = bool(rng.random() < 0.3)
-    s["d0"] = None if rng.random() < 0.5 else [float(x) for x in rng.standard_normal(n)]
-    s["v0"] = None if rng.random() < 0.5 else [float(x) for x in rng.standard_normal(n) / s["h"] * 0.1]
+    s["d0"] = _gen_ic_vec(rng, n, 0.45)
+    s["v0"] = _gen_ic_vec(rng, n, 0.45, 0.1 / s["h"])
     F = rng.standard_normal((n, nt)) * 10 ** rng.uniform(-1, 2)
     if rng.random() < 0.15:
         F[:, 0] = 0.0
